@@ -79,3 +79,97 @@ def jobs(tier):
                         must_have=['postcondition', 'loop_invariant_step', 'loop_decreases'],
                         clause='zero fill: every byte of the range is zero for every size; writes only that range'))
     return out
+
+
+from lib_containers import SS, QSS, COPY, wf_req, wf_ens, copy_callee, KEEP, OLDREQ
+import lib_containers as LC
+
+
+def ss_job(name, qfn, fn, spec, clause, **kw):
+    j = dict(name='StringStream<char>.%s' % name, unit=LC.UNIT, fn=fn, roots=[QSS + '::' + qfn], specs={fn: spec, COPY: copy_callee()}, replace=[COPY],
+             ghosts=LC.GH, solver='cadical', timeout=600, objbits=10, must_have=['postcondition'], clause=clause, cex_K=4)
+    if kw.pop('nocopy', False):
+        j['specs'] = {fn: spec}
+        j['replace'] = []
+    j.update(kw)
+    return j
+
+
+NOPO = ['--bounds-check', '--pointer-check', '--div-by-zero-check']   # nullptr + 0 is well defined in C++ (CBMC flags it as C pointer overflow)
+
+
+def ss_jobs():
+    out = []
+    O_LEN = '__CPROVER_old(self->length_)'
+    for alloc, tag in ((True, 'allocated'), (False, 'empty')):
+        FR = ['__CPROVER_object_whole(self)'] + (['__CPROVER_object_whole(self->storage_)'] if alloc else [])
+        FREES = ['self->storage_'] if alloc else []
+        W = wf_req(allocated=alloc)
+        keep = [KEEP] if alloc else []
+        oldreq = [OLDREQ] if alloc else []
+        kw = {} if alloc else dict(checks=NOPO)
+        out.append(ss_job('write.' + tag, 'write', SS + '_write',
+                          dict(buffers=[('str', 'len')], requires=W + ['len <= 0x1000000u'] + oldreq + ['g_c == (g_k < self->length_ ? g_k : g_k - self->length_)'],
+                               ensures=wf_ens() + ['self->length_ == %s + len' % O_LEN] + keep +
+                               ['(g_k >= %s && g_k < self->length_) ==> self->storage_[g_k] == str[g_k - %s]' % (O_LEN, O_LEN)],
+                               assigns=FR, frees=FREES),
+                          'append of a range: new length, earlier elements undisturbed, appended elements equal the source (source outside the stream)', **kw))
+        out.append(ss_job('append-char.' + tag, 'operator+=(const char)', SS + '_op_add_assign__const_char',
+                          dict(requires=W + oldreq + ['g_c == g_k'],
+                               ensures=wf_ens() + ['self->length_ == %s + 1' % O_LEN, 'self->storage_[%s] == one_char' % O_LEN] + keep,
+                               assigns=FR, frees=FREES),
+                          'append of one unit: length grows by one, the unit is last, earlier elements undisturbed', **kw))
+        out.append(ss_job('Buffer.' + tag, 'Buffer', SS + '_Buffer',
+                          dict(requires=W + ['len <= 0x1000000u'] + oldreq + ['g_c == g_k'],
+                               ensures=wf_ens() + ['self->length_ == %s + len' % O_LEN, 'len != 0 ==> __CPROVER_return_value == self->storage_ + %s' % O_LEN,
+                                                   'len != 0 ==> __CPROVER_w_ok(__CPROVER_return_value, len)'] + keep,
+                               assigns=FR, frees=FREES),
+                          'buffer hand-out: the returned range is the new tail of the (possibly re-allocated) storage and is writable', **kw))
+        out.append(ss_job('SetLength.' + tag, 'SetLength', SS + '_SetLength',
+                          dict(requires=W + ['len <= 0x1000000u'] + oldreq + ['g_c == g_k'],
+                               ensures=wf_ens() + ['self->length_ == len', '(g_k < %s && g_k < len) ==> self->storage_[g_k] == g_old' % O_LEN] if alloc else wf_ens() + ['self->length_ == len'],
+                               assigns=FR, frees=FREES),
+                          'set-length grows capacity as needed and keeps the retained elements', **kw))
+        out.append(ss_job('InsertNull.' + tag, 'InsertNull', SS + '_InsertNull',
+                          dict(requires=W + oldreq + ['g_c == g_k'],
+                               ensures=wf_ens() + ['self->length_ == %s' % O_LEN, 'self->length_ < self->capacity_', 'self->storage_[self->length_] == 0'] + keep,
+                               assigns=FR, frees=FREES),
+                          'terminator insertion does not change length or content', **kw))
+    W = wf_req(allocated=True)
+    FR = ['__CPROVER_object_whole(self)', '__CPROVER_object_whole(self->storage_)']
+    out.append(ss_job('StepBack', 'StepBack', SS + '_StepBack',
+                      dict(requires=W + [OLDREQ], ensures=wf_ens() + ['self->length_ == (len <= %s ? %s - len : %s)' % (O_LEN, O_LEN, O_LEN), 'g_k < self->length_ ==> self->storage_[g_k] == g_old'],
+                           assigns=['self->length_']),
+                      'step-back drops exactly len trailing elements (or nothing when len exceeds the length)', nocopy=True))
+    out.append(ss_job('Reverse', 'Reverse', SS + '_Reverse',
+                      dict(requires=W + ['index <= self->length_', 'g_k < self->length_', 'g_old == self->storage_[g_k]'],
+                           ghost_returns=[],
+                           ensures=wf_ens() + ['self->length_ == %s' % O_LEN,
+                                               'g_k < index ==> self->storage_[g_k] == g_old',
+                                               'g_k >= index ==> self->storage_[index + (self->length_ - 1 - g_k)] == g_old'],
+                           assigns=['__CPROVER_object_whole(self->storage_)'],
+                           loops={0: dict(invariant=['index <= end + 1 && end <= self->length_', 'index - __CPROVER_loop_entry(index) == self->length_ - end',
+                                                     'index >= __CPROVER_loop_entry(index)',
+                                                     '(g_k < __CPROVER_loop_entry(index)) ==> self->storage_[g_k] == g_old',
+                                                     '(g_k >= index && g_k < end) ==> self->storage_[g_k] == g_old',
+                                                     '(g_k >= __CPROVER_loop_entry(index) && g_k < index) ==> self->storage_[__CPROVER_loop_entry(index) + (self->length_ - 1 - g_k)] == g_old',
+                                                     '(g_k >= end && g_k < self->length_) ==> self->storage_[__CPROVER_loop_entry(index) + (self->length_ - 1 - g_k)] == g_old'],
+                                        decreases='(end + 1) - index', assigns='index, end, __CPROVER_object_whole(self->storage_)')}),
+                      'reverse from an index: the tail is mirrored, the head is untouched', nocopy=True))
+    out.append(ss_job('Reset', 'Reset', SS + '_Reset',
+                      dict(requires=W, ensures=['self->storage_ == 0 && self->length_ == 0 && self->capacity_ == 0', '__CPROVER_was_freed(__CPROVER_old(self->storage_))'],
+                           assigns=['__CPROVER_object_whole(self)'], frees=['self->storage_']),
+                      'reset releases the storage exactly once and leaves an empty stream', nocopy=True))
+    out.append(ss_job('Detach', 'Detach', SS + '_Detach',
+                      dict(requires=W, ensures=['self->storage_ == 0 && self->length_ == 0 && self->capacity_ == 0', '__CPROVER_return_value == __CPROVER_old(self->storage_)',
+                                                '!__CPROVER_was_freed(__CPROVER_old(self->storage_))'],
+                           assigns=['__CPROVER_object_whole(self)'], frees=['self->storage_']),
+                      'detach hands the storage to the caller without releasing it', nocopy=True))
+    return out
+
+
+_jobs_c14 = jobs
+
+
+def jobs(tier):
+    return _jobs_c14(tier) + ss_jobs()
